@@ -157,11 +157,14 @@ def indexer_getitem(I, ix, idx):
                 raise Undecided("iloc boolean mask")
             from .spec import ForAll
             inb = ForAll(lambda i: And(to_z3(pos.fn(i)) >= -to_z3(n), to_z3(pos.fn(i)) < to_z3(n)), 0, pos.len)
-            if not ctx.entails(inb):
+            guards = z3.And(*ctx.quant_guards) if (ctx.in_quant and getattr(ctx, "quant_guards", None)) else None
+            if guards is not None and ctx.entails(z3.Implies(guards, to_z3(inb))):
+                pass        # inside an element-wise closure: in bounds for every element of the sequence, no path split
+            elif not ctx.entails(inb):
                 if ctx.branch(Not(inb), "iloc-oob"):
                     raise SymRaise(ExcVal(ExtClass("builtins.IndexError"), ()), where="iloc positional index out of bounds")
             nonneg = ForAll(lambda i: to_z3(pos.fn(i)) >= 0, 0, pos.len)
-            if ctx.entails(nonneg):
+            if ctx.entails(nonneg) or (guards is not None and ctx.entails(z3.Implies(guards, to_z3(nonneg)))):
                 p2 = pos
             else:
                 p2 = SArr(pos.shape, lambda i: simp(z3.If(to_z3(pos.fn(i)) < 0, to_z3(pos.fn(i)) + to_z3(n), to_z3(pos.fn(i)))), "int", "ndarray")
@@ -364,6 +367,13 @@ def pd_dataframe(I, args, kwargs):
     if isinstance(data, Opaque) and data.prov is not None and len(args) + len(kwargs) == 1:
         # pd.DataFrame(frame-like): same content (provenance kept), attributes such as .columns may be assigned
         o = Opaque("DataFrame(" + data.tag + ")", prov=data.prov)
+        o.setattr_ok = True
+        o.attrs = {}
+        return o
+    if isinstance(data, SArr) and data.ndim == 1 and data.dtype == "obj" and len(args) + len(kwargs) == 1:
+        # pd.DataFrame(list of row Series): one row per list element, in list order (cells stay the objects they are)
+        USED.add("pd.DataFrame(list of Series): row i is the i-th Series, in list order")
+        o = Opaque("DataFrame(rows)", prov=("rows", data))
         o.setattr_ok = True
         o.attrs = {}
         return o
